@@ -42,7 +42,8 @@ Definition exec_conn_cmd (w : world) (c : Z) (name : string) (argv : list string
           match parse_int (arg argv 1), parse_int (arg argv 2) with
           | Some d1, Some d2 =>
               if (d1 <? 0) || (d2 <? 0) then (w, RErr)
-              else (w <| w_conns := (fun d => if d =? d1 then d2 else if d =? d2 then d1 else d) <$> w_conns w |>, ROk)
+              else (w <| w_conns := map_imap (fun c d => Some (if c =? 0 then d else
+                                          if d =? d1 then d2 else if d =? d2 then d1 else d)) (w_conns w) |>, ROk)
           | _, _ => (w, RErr)
           end)
   else if String.eqb name "ping" then
@@ -54,6 +55,11 @@ Definition exec_conn_cmd (w : world) (c : Z) (name : string) (argv : list string
   else if String.eqb name "echo" then
     Some (match argv with [_; m] => (w, RBulk m) | _ => (w, RErr) end)
   else None.
+
+(** [handleConnection] / [VerifNewConn]: a new TCP connection starts in database 0. *)
+Definition register_conn (w : world) (c : Z) : world :=
+  if c =? 0 then w else
+  match w_conns w !! c with Some _ => w | None => w <| w_conns := <[c := 0]> (w_conns w) |> end.
 
 Definition exec_cmd (w : world) (c : Z) (argv : list string) : world * reply :=
   match argv with
